@@ -69,10 +69,10 @@ GetConn(e) ==
        ELSE IF call # 0
        THEN /\ cur' = 0 /\ ccall' = [ccall EXCEPT ![e] = call]
             /\ pc' = [pc EXCEPT ![e] = "wait"] /\ UNCHANGED <<call, cst, cconn, fresh, res>>
-       ELSE /\ Unused # {}
-            /\ LET k == CHOOSE x \in Unused : \A y \in Unused : x <= y IN
-               /\ cur' = 0 /\ call' = k /\ cst' = [cst EXCEPT ![k] = "dialing"]
-               /\ ccall' = [ccall EXCEPT ![e] = k]
+       ELSE \E k \in Unused :          \* the next dial: identities are handed out in order
+            /\ \A y \in Unused : k <= y
+            /\ cur' = 0 /\ call' = k /\ cst' = [cst EXCEPT ![k] = "dialing"]
+            /\ ccall' = [ccall EXCEPT ![e] = k]
             /\ pc' = [pc EXCEPT ![e] = "wait"] /\ UNCHANGED <<cconn, fresh, res>>
     /\ UNCHANGED <<closed, cres, conn, retry, ctxdone, ffail>>
 
